@@ -35,6 +35,7 @@ def stepOk (s : S) : Ev → Bool × S
   | .mon c => (true, { s with highest := max s.highest c })
   | .restarted => (true, { s with last := none, maxPend := 0 })
   | .cancelled => (true, s)
+  | .monFailed => (true, s)
 
 def check : S → List Ev → Bool
   | _, [] => true
